@@ -68,6 +68,29 @@ pub fn events(thorough: bool) -> Vec<Ev> {
     // duplicate wire: short (empty after delay) and long
     v.push(Ev { name: "two banks for one wire, 64 and 150 samples", run: sim, banks: vec![trg(1), wire("09", 0, 64, 0), wire("09", 0, 150, 0), wire("11", 3, 150, 0)] });
     v.push(Ev { name: "two banks for one wire, 100 and 101 samples", run: sim, banks: vec![trg(1), wire("09", 0, 100, 0), wire("09", 0, 101, 0)] });
+    // two full banks with different pulses for one wire, on wires of every 64-wire block of the ring
+    for (w, name) in [(5usize, "two full banks with different pulses for wire 5"), (100, "two full banks with different pulses for wire 100"), (170, "two full banks with different pulses for wire 170"), (228, "two full banks with different pulses for wire 228"), (255, "two full banks with different pulses for wire 255")] {
+        let (wb, wch) = m.wire[w];
+        let mk = |amp: f64| {
+            let mut sg = vec![0.0; 60];
+            add_wire_pulse(&mut sg, 5, amp);
+            (wire_bank_name(wb, wch), wire_packet(wb, wch, &digitise_wire(&sg)))
+        };
+        // a pad cluster in the wire's column, so that "which bank survives" would show in the avalanche amplitude
+        let col = wire_column(w);
+        let rows = [300usize, 301, 302];
+        let (bd, chip, _) = m.pad[&(col, rows[0])];
+        let mut chans: Vec<(u16, Vec<i16>)> = rows.iter().zip([40.0, 100.0, 55.0]).filter(|(r, _)| m.pad[&(col, **r)].0 == bd && m.pad[&(col, **r)].1 == chip).map(|(r, a)| {
+            let mut sg = vec![0.0; 40];
+            add_pad_pulse(&mut sg, 5, a);
+            (readout_index(m.pad[&(col, *r)].2), digitise_pad(&sg))
+        }).collect();
+        chans.sort_by_key(|c| c.0);
+        let req = chans[0].1.len() as u16;
+        let mut banks = vec![trg(40 + w as u32), mk(120.0), mk(70.0)];
+        banks.extend(pwb_banks(bd, chip, &pwb_payload(bd, chip, req, &chans), 8192));
+        v.push(Ev { name, run: sim, banks });
+    }
     // the same wire bank name twice: a data-less (16-byte suppressed) packet and a full one; and twice data-less
     v.push(Ev { name: "one wire bank name twice: data-less packet and full packet", run: sim, banks: vec![trg(2), ("C090".into(), crate::props::c02::short_packet(0x2000, 0, 699)), wire("09", 0, 150, 0), wire("10", 3, 150, 1)] });
     v.push(Ev { name: "one wire bank name three times: full, data-less, data-less", run: sim, banks: vec![trg(2), wire("09", 0, 150, 0), ("C090".into(), crate::props::c02::short_packet(0x2000, 0, 699)), ("C090".into(), crate::props::c02::short_packet(0x2000, -3, 100))] });
